@@ -151,7 +151,7 @@ def file_events(v, h, tier, rnd):
             {"id": 0, "op": "table_scan", "table": "t"}, {"id": 1, "op": "index_scan", "index": "tb"}]}])
         rc, txt, _ = common.run([h, "ops", req, out], timeout=900)
         if rc != 0:
-            raise Infra("harness ops failed: " + txt[-2000:])
+            raise common.harness_failure(txt)
         res = common.read_ndjson(out)
         btree_pages = set(tnodes) | set(inodes) | {1}
         for r, rows, sq, isidx in ((res[0], trows, sq_t, False), (res[1], irows, sq_i, True)):
@@ -217,7 +217,7 @@ def run(tier):
     common.write_ndjson(inp, reqs)
     rc, txt, _ = common.run([h, "calls", inp, outp], timeout=600)
     if rc != 0:
-        raise Infra("harness calls failed: " + txt[-2000:])
+        raise common.harness_failure(txt, "harness calls")
     res = common.read_ndjson(outp)
     events, info = [], []
     for rq, ev, rs in zip(reqs, evs, res):
